@@ -107,23 +107,19 @@ pub fn c15_slice_str() {
     sym::forget(r);
 }
 
-// @h prop=C15 tier=thorough kind=proof inst="ReadSlice<SliceRegion<MirrorRegion<u8>>> (nested)" bounds="[[x,y],[z]] region-backed vs [[u,v]] / [[u,v],[w]] borrowed" desc="nested slices compare like Vec<Vec<u8>>"
+// @h prop=C15 tier=thorough kind=proof mem=24 memw=14 timeout=2400 inst="ReadSlice<SliceRegion<MirrorRegion<u8>>> (nested)" bounds="[[x,y],[z]] region-backed vs [[u,v]] borrowed" desc="nested slices compare like Vec<Vec<u8>>"
 #[cfg(feature = "thorough")]
 #[cfg_attr(kani, kani::proof, kani::unwind(6))]
 pub fn c15_nested() {
     type NR = SliceRegion<SliceRegion<MirrorRegion<u8>>>;
     let a = vec![Bytes::<3>::any_len(2).to_vec(), Bytes::<3>::any_len(1).to_vec()];
-    let bl = if sym::bool() { 1 } else { 2 };
-    let mut b = vec![Bytes::<3>::any_len(2).to_vec()];
-    if bl == 2 {
-        b.push(Bytes::<3>::any_len(1).to_vec());
-    }
+    let b = vec![Bytes::<3>::any_len(2).to_vec()];
     let mut r = NR::default();
     let ia = r.push(&a);
     let y = <NR as Region>::ReadItem::borrow_as(&b);
     let m = a.cmp(&b);
     assert_agrees(&r.index(ia), &y, m);
-    cover!(m == Ordering::Equal, "equal nested");
+    cover!(m == Ordering::Greater, "longer outer slice with equal first row is greater");
     sym::forget(r);
 }
 
